@@ -261,7 +261,7 @@ func encodeLine(m *Metric, p precision) string {
 	}
 	if m.TS != 0 {
 		b.WriteByte(' ')
-		b.WriteString(p.render(m.TS))
+		b.WriteString(formatLineTS(p.render(m.TS), m.LineTSForm))
 	}
 	return b.String()
 }
@@ -284,4 +284,35 @@ func newRequest(body []byte, gz bool, query string) *http.Request {
 		Header: h,
 		Body:   io.NopCloser(bytes.NewReader(body)),
 	}
+}
+
+// formatLineTS rewrites a decimal integer literal in another notation.
+func formatLineTS(dec string, form string) string {
+	sign, digits := "", dec
+	if strings.HasPrefix(dec, "-") {
+		sign, digits = "-", dec[1:]
+	}
+	v, _ := strconv.ParseUint(digits, 10, 64)
+	switch form {
+	case "pad1":
+		return sign + "0" + digits
+	case "pad3":
+		return sign + "000" + digits
+	case "plus":
+		if sign == "" {
+			return "+" + digits
+		}
+	case "hex":
+		return sign + "0x" + strconv.FormatUint(v, 16)
+	case "bin":
+		return sign + "0b" + strconv.FormatUint(v, 2)
+	case "oct":
+		return sign + "0o" + strconv.FormatUint(v, 8)
+	case "underscore":
+		if len(digits) > 1 {
+			return sign + digits[:1] + "_" + digits[1:]
+		}
+		return sign + digits + "_0"
+	}
+	return dec
 }
